@@ -122,8 +122,8 @@ def timers_scheduled(cx, iid):
         ins = call_sites(syn, "HashMap::insert", r"arg1\.clients")
         pushes = [l for l, t in syn.calls("BinaryHeap::push") if "EventType::ResendHandshakeSynAck{}" in show(syn.call_expr(t))]
         cx.preceded_by(inst, syn, ins, pushes, "pending client without handshake timer", "client_events.push(ResendHandshakeSynAck ..)")
-        if n < 3:
-            inst.violation("server::Server", "transitions to Closing/Closed", "fewer transitions to Closing/Closed than counted by hand (anchor)")
+        if n < 2:
+            inst.violation("server::Server", "transitions to Closing/Closed", "no transition to Closing and to Closed found in the server (anchor)")
         # expiry of each timer forgets the client: handle_event writes Fin in all three arms
         he = R.body("server::Server::handle_event")
         fa = cx.fa(he, kill_fields=False)
